@@ -259,6 +259,42 @@ impl Model {
             _ => panic!("kind/denotation mismatch"),
         }
     }
+    /// Boolean kinds: number of INNER nodes a manager holds after a collection when exactly
+    /// `roots` are referenced from outside (the union of their reduced diagrams, plus the
+    /// ZBDD tautology chain the manager keeps for itself)
+    pub fn expected_inner_nodes(&self, roots: &[&Den]) -> usize {
+        let mut seen: HashMap<TT, ()> = HashMap::new();
+        let n = self.n;
+        match self.kind {
+            Kind::Bdd => {
+                for r in roots {
+                    canon_bdd_into(r.b(), &self.order, &mut seen);
+                }
+                seen.keys().filter(|t| !(t.is_zero() || t.is_one())).count()
+            }
+            Kind::Bcdd => {
+                for r in roots {
+                    canon_bcdd_into(r.b(), &self.order, &mut seen);
+                }
+                seen.keys().filter(|t| !t.is_zero()).count()
+            }
+            Kind::Zbdd => {
+                let base = TT::base(n);
+                for r in roots {
+                    canon_zbdd_into(r.b(), &self.order, &mut seen);
+                }
+                // tautology chain: for every level l the family of all subsets of the
+                // variables at levels >= l
+                let mut fam = base.clone();
+                for &v in self.order.iter().rev() {
+                    fam = fam.or(&fam.fam_add_var(v));
+                    canon_zbdd_into(&fam, &self.order, &mut seen);
+                }
+                seen.keys().filter(|t| !(t.is_zero() || **t == base)).count()
+            }
+            _ => panic!("expected_inner_nodes: Boolean kinds only"),
+        }
+    }
     /// top variable (first in order on which the function depends in the kind's sense);
     /// None for terminals
     pub fn top_var_bool(&self, t: &TT) -> Option<u32> {
@@ -324,7 +360,7 @@ impl Model {
                     _ => vec![(*d, cf)],
                 }
             }
-            Restrict { d, a, pos, neg } if k.has_quant() => {
+            Restrict { d, a, pos, neg } if k.has_quant() || k == Kind::Zbdd => {
                 let f = self.reg(*a)?.b();
                 let mut r = f.clone();
                 for v in 0..n {
@@ -605,8 +641,13 @@ pub fn min_completion_distance(cur: &[u32], request: &[u32]) -> usize {
 // ---- canonical sizes for the boolean kinds ------------------------------------
 
 fn canon_bdd(t: &TT, order: &[u32]) -> usize {
-    // distinct subfunctions reachable by cofactoring along the order, with BDD reduction
     let mut seen: HashMap<TT, ()> = HashMap::new();
+    canon_bdd_into(t, order, &mut seen);
+    seen.len()
+}
+
+fn canon_bdd_into(t: &TT, order: &[u32], seen: &mut HashMap<TT, ()>) {
+    // distinct subfunctions reachable by cofactoring along the order, with BDD reduction
     fn rec(t: &TT, order: &[u32], l: usize, seen: &mut HashMap<TT, ()>) {
         if seen.contains_key(t) {
             return;
@@ -623,13 +664,17 @@ fn canon_bdd(t: &TT, order: &[u32]) -> usize {
         rec(&t.cofactor(v, true), order, l + 1, seen);
         rec(&t.cofactor(v, false), order, l + 1, seen);
     }
-    rec(t, order, 0, &mut seen);
-    seen.len()
+    rec(t, order, 0, seen);
 }
 
 fn canon_bcdd(t: &TT, order: &[u32]) -> usize {
-    // nodes are classes {f, ¬f}; one terminal
     let mut seen: HashMap<TT, ()> = HashMap::new();
+    canon_bcdd_into(t, order, &mut seen);
+    seen.len()
+}
+
+fn canon_bcdd_into(t: &TT, order: &[u32], seen: &mut HashMap<TT, ()>) {
+    // nodes are classes {f, ¬f}; one terminal
     fn norm(t: &TT) -> TT {
         // representative: the one false at the all-zero assignment... any fixed choice
         if t.get(0) { t.not() } else { t.clone() }
@@ -651,15 +696,19 @@ fn canon_bcdd(t: &TT, order: &[u32]) -> usize {
         rec(&r.cofactor(v, true), order, l + 1, seen);
         rec(&r.cofactor(v, false), order, l + 1, seen);
     }
-    rec(t, order, 0, &mut seen);
-    seen.len()
+    rec(t, order, 0, seen);
 }
 
 fn canon_zbdd(t: &TT, order: &[u32]) -> usize {
+    let mut seen: HashMap<TT, ()> = HashMap::new();
+    canon_zbdd_into(t, order, &mut seen);
+    seen.len()
+}
+
+fn canon_zbdd_into(t: &TT, order: &[u32], seen: &mut HashMap<TT, ()>) {
     // families; a node exists at variable v iff the hi-family (sets containing v) is
     // non-empty. Key: (level, family) is unnecessary: a family determines its diagram
     // below the first level whose variable occurs in some set.
-    let mut seen: HashMap<TT, ()> = HashMap::new();
     let base = TT::base(t.n);
     fn rec(t: &TT, base: &TT, order: &[u32], l: usize, seen: &mut HashMap<TT, ()>) {
         if seen.contains_key(t) {
@@ -677,8 +726,7 @@ fn canon_zbdd(t: &TT, order: &[u32]) -> usize {
         rec(&t.fam_subset1(v), base, order, l + 1, seen);
         rec(&t.fam_subset0(v), base, order, l + 1, seen);
     }
-    rec(t, &base, order, 0, &mut seen);
-    seen.len()
+    rec(t, &base, order, 0, seen);
 }
 
 #[cfg(test)]
